@@ -81,6 +81,23 @@ def rule_T1(ctx, repo, eng):
                 r.violated(key, site, 'GetTxid returns `%s`, not Hash(<witness-free serialisation>)' % norm(expr)[:80])
             continue
         ser = expr.args[0]
+        # locals assigned on this path (a `preimage`, a `stripped` object chosen by a branch) stand for their last value
+
+        def on_path(e, depth=0):
+            if depth > 4:
+                return e
+            env_ = {}
+            for s_ in p.stmts():
+                if isinstance(s_, ast.Assign) and len(s_.targets) == 1 and isinstance(s_.targets[0], ast.Name):
+                    env_[s_.targets[0].id] = s_.value
+
+            class Sub(ast.NodeTransformer):
+                def visit_Name(self, n_):
+                    if isinstance(n_.ctx, ast.Load) and n_.id in env_ and n_.id != 'self':
+                        return on_path(ast.parse(ast.unparse(env_[n_.id]), mode='eval').body, depth + 1)
+                    return n_
+            return ast.fix_missing_locations(Sub().visit(ast.parse(ast.unparse(e), mode='eval').body))
+        ser = on_path(ser)
         if isinstance(ser, ast.IfExp):
             # Hash(A if c else B): decide the arm this path selects when the test is one of the assumed atoms, else both
             tv = tr.tri(ser.test, p)
@@ -150,7 +167,10 @@ def rule_T1(ctx, repo, eng):
                 else:
                     r.ok(key, site, 'reconstruction %s(...) without witness, field by field from self' % cv.info.name)
                 continue
-        r.violated(key, site, 'hashed object `%s` is not recognised as witness-free' % norm(obj)[:60])
+        if isinstance(obj, ast.Name):
+            r.undecided(key, site, 'hashed object `%s` is a local this rule cannot resolve on the path' % obj.id)
+        else:
+            r.violated(key, site, 'hashed object `%s` is not recognised as witness-free' % norm(obj)[:60])
     if n == 0:
         r.undecided('GetTxid', fi.site, 'no returning path found')
 
